@@ -155,11 +155,12 @@ def gen_poly(rng, n):
             # ideal vertices (on the unit circle), among them possibly the half-plane's point at infinity (1, 0)
             ts = sorted(rng.uniform(0.5, 2 * math.pi - 0.5) for _ in range(nv))      # on-screen in the half-plane window
             vs = [[math.cos(t), math.sin(t)] if rng.random() < 0.6 else [0.8 * math.cos(t), 0.8 * math.sin(t)] for t in ts]
-            if rng.random() < 0.6:
+            if rng.random() < 0.7:
                 vs[rng.randrange(nv)] = [1.0, 0.0]
         # the transform is the identity for the special kinds (so that the special edge stays special in the drawing)
         tr = rand_iso(rng) if (kind in ("random", "convex") and rng.random() < 0.5) else None
-        yield {"verts": vs, "model": rng.choice(["poincare", "poincare", "halfspace"]), "kind": kind, "transform": tr}
+        model = rng.choice(["poincare", "poincare", "halfspace"]) if kind != "ideal" else rng.choice(["halfspace", "halfspace", "poincare"])
+        yield {"verts": vs, "model": model, "kind": kind, "transform": tr}
 
 
 def make_poly(inp):
